@@ -470,7 +470,7 @@ class SSHChannel(Generic[AnyStr], SSHPacketHandler):
 
         request, _, want_reply = self._request_queue.pop(0)
 
-        if want_reply and self._send_state not in {'close_pending', 'closed'}:
+        if want_reply and self._send_state != 'closed':
             if result:
                 self.send_packet(MSG_CHANNEL_SUCCESS)
             else:
